@@ -12,6 +12,7 @@ import Compress.Drv.Prefix
 import Compress.Drv.Flate
 import Compress.Drv.Window
 import Compress.Drv.BitIO
+import Compress.Drv.Wrap
 import Compress.Drv.Bzip2
 import Compress.Drv.WriterApi
 
@@ -50,6 +51,7 @@ def processLine (brotliDict : ByteArray) (line : String) : String :=
       | "bzcrc" => handleBzcrc kv
       | "br" => handleBr kv
       | "bw" => handleBw kv
+      | "brw" => handleBrw kv
       | "gp" => handleGp kv
       | "gl" => handleGl kv
       | "dec" => handleDec kv
